@@ -8,34 +8,29 @@ From Coq Require Import Permutation.
 From TL Require Import Lib.Base Lib.GenTypes Gen.OrchHistGen Model.OrchHist Model.OrchHistRun
      Proofs.OrchHistBase Proofs.OrchHistMain.
 
-(* 1. History independence.  For every quirk vector with the two state flags off, every initial file system and
-      every history of lint calls (file / file list / directory / Linter.lint) interleaved with edits, deletions
-      and additions on one long-lived object: the i-th call returns exactly what a fresh object returns on the
-      file system as it is at that moment. *)
+(* 1. History independence.  For every quirk vector with the three state flags off, every initial file system and
+      every admissible history of lint calls (file / file list / directory / Linter.lint) interleaved with edits,
+      deletions, additions and the construction of a new Linter for the same root in the same process: the i-th call
+      returns exactly what a fresh object (in a fresh process) returns on the file system as it is at that moment.
+      Admissible (hist_synced): configuration is read when an object is built, so no lint call is made between a change
+      of the ignore file and the construction of the next Linter. *)
 Theorem C08_history_independent :
-  forall V perfile rep_blocks rep_consts rep_st hard_excl ignored in_dir q fs0 h,
-  q_dry_keeps_storage q = false -> q_lintfile_leaves_evidence q = false ->
-  snd (run V perfile rep_blocks rep_consts rep_st hard_excl ignored in_dir q (init, fs0) h)
-  = fresh_run V perfile rep_blocks rep_consts rep_st hard_excl ignored in_dir q fs0 h.
+  forall V perfile rep_blocks rep_consts rep_st hard_excl ignored ign_path in_dir q fs0 h,
+  q_dry_keeps_storage q = false -> q_lintfile_leaves_evidence q = false -> q_ignore_parser_reused q = false ->
+  hist_synced ign_path false h = true ->
+  snd (run V perfile rep_blocks rep_consts rep_st hard_excl ignored ign_path in_dir q (mk_init ign_path fs0, fs0) h)
+  = fresh_run V perfile rep_blocks rep_consts rep_st hard_excl ignored ign_path in_dir q fs0 h.
 Proof. exact history_independent. Qed.
 Print Assumptions C08_history_independent.
-
-Theorem C08_next_call_as_fresh :
-  forall V perfile rep_blocks rep_consts rep_st hard_excl ignored in_dir q fs0 h o,
-  q_dry_keeps_storage q = false -> q_lintfile_leaves_evidence q = false ->
-  snd (step V perfile rep_blocks rep_consts rep_st hard_excl ignored in_dir q
-         (fst (run V perfile rep_blocks rep_consts rep_st hard_excl ignored in_dir q (init, fs0) h)) o)
-  = fresh V perfile rep_blocks rep_consts rep_st hard_excl ignored in_dir q (fs_after fs0 h) o.
-Proof. exact next_call_as_fresh. Qed.
-Print Assumptions C08_next_call_as_fresh.
 
 (* histories without bare single-file calls (directory / file-list runs only, as the CLI makes them):
    resetting the DRY storage alone suffices *)
 Theorem C08_history_independent_batch :
-  forall V perfile rep_blocks rep_consts rep_st hard_excl ignored in_dir q fs0 h,
-  q_dry_keeps_storage q = false -> forallb (fun o => negb (bare_single q o)) h = true ->
-  snd (run V perfile rep_blocks rep_consts rep_st hard_excl ignored in_dir q (init, fs0) h)
-  = fresh_run V perfile rep_blocks rep_consts rep_st hard_excl ignored in_dir q fs0 h.
+  forall V perfile rep_blocks rep_consts rep_st hard_excl ignored ign_path in_dir q fs0 h,
+  q_dry_keeps_storage q = false -> q_ignore_parser_reused q = false ->
+  forallb (fun o => negb (bare_single q o)) h = true -> hist_synced ign_path false h = true ->
+  snd (run V perfile rep_blocks rep_consts rep_st hard_excl ignored ign_path in_dir q (mk_init ign_path fs0, fs0) h)
+  = fresh_run V perfile rep_blocks rep_consts rep_st hard_excl ignored ign_path in_dir q fs0 h.
 Proof. exact history_independent_batch. Qed.
 Print Assumptions C08_history_independent_batch.
 
@@ -43,28 +38,29 @@ Print Assumptions C08_history_independent_batch.
       their evidence, then permuting the file list of any call and the order in which any directory is walked
       permutes the result of every call of the history (per origin: per-file, blocks, constants, stringly). *)
 Theorem C08_order_independent :
-  forall V perfile rep_blocks rep_consts rep_st hard_excl ignored in_dir,
+  forall V perfile rep_blocks rep_consts rep_st hard_excl ignored ign_path in_dir,
   (forall l l' a a', Permutation l l' -> Permutation a a' -> Permutation (rep_blocks l a) (rep_blocks l' a')) ->
   (forall l l', Permutation l l' -> Permutation (rep_st l) (rep_st l')) ->
   forall q fs0 h h',
   q_consts_in_processing_order q = false -> Forall2 op_perm h h' ->
   Forall2 (out_perm V)
-    (snd (run V perfile rep_blocks rep_consts rep_st hard_excl ignored in_dir q (init, fs0) h))
-    (snd (run V perfile rep_blocks rep_consts rep_st hard_excl ignored in_dir q (init, fs0) h')).
+    (snd (run V perfile rep_blocks rep_consts rep_st hard_excl ignored ign_path in_dir q (mk_init ign_path fs0, fs0) h))
+    (snd (run V perfile rep_blocks rep_consts rep_st hard_excl ignored ign_path in_dir q (mk_init ign_path fs0, fs0) h')).
 Proof. exact order_independent. Qed.
 Print Assumptions C08_order_independent.
 
 (* 3. Both together: results are a function of the current file system and the call alone. *)
 Theorem C08_results_depend_on_current_state_only :
-  forall V perfile rep_blocks rep_consts rep_st hard_excl ignored in_dir,
+  forall V perfile rep_blocks rep_consts rep_st hard_excl ignored ign_path in_dir,
   (forall l l' a a', Permutation l l' -> Permutation a a' -> Permutation (rep_blocks l a) (rep_blocks l' a')) ->
   (forall l l', Permutation l l' -> Permutation (rep_st l) (rep_st l')) ->
   forall q fs0 h h',
   q_dry_keeps_storage q = false -> q_lintfile_leaves_evidence q = false -> q_consts_in_processing_order q = false ->
+  q_ignore_parser_reused q = false -> hist_synced ign_path false h = true ->
   Forall2 op_perm h h' ->
   Forall2 (out_perm V)
-    (snd (run V perfile rep_blocks rep_consts rep_st hard_excl ignored in_dir q (init, fs0) h'))
-    (fresh_run V perfile rep_blocks rep_consts rep_st hard_excl ignored in_dir q fs0 h).
+    (snd (run V perfile rep_blocks rep_consts rep_st hard_excl ignored ign_path in_dir q (mk_init ign_path fs0, fs0) h'))
+    (fresh_run V perfile rep_blocks rep_consts rep_st hard_excl ignored ign_path in_dir q fs0 h).
 Proof. exact results_depend_on_current_state_only. Qed.
 Print Assumptions C08_results_depend_on_current_state_only.
 
@@ -82,29 +78,32 @@ Print Assumptions C08_canonical_order.
       per-file, duplicate-constant and stringly-typed findings of a fresh object; only the duplicate-code part
       can differ. *)
 Theorem C08_stale_state_confined_to_blocks_partial :
-  forall V perfile rep_blocks rep_consts rep_st hard_excl ignored in_dir q fs0 h,
-  q_lintfile_leaves_evidence q = false ->
+  forall V perfile rep_blocks rep_consts rep_st hard_excl ignored ign_path in_dir q fs0 h,
+  q_lintfile_leaves_evidence q = false -> q_ignore_parser_reused q = false -> hist_synced ign_path false h = true ->
   Forall2 (same_but_blocks V)
-    (snd (run V perfile rep_blocks rep_consts rep_st hard_excl ignored in_dir q (init, fs0) h))
-    (fresh_run V perfile rep_blocks rep_consts rep_st hard_excl ignored in_dir q fs0 h).
+    (snd (run V perfile rep_blocks rep_consts rep_st hard_excl ignored ign_path in_dir q (mk_init ign_path fs0, fs0) h))
+    (fresh_run V perfile rep_blocks rep_consts rep_st hard_excl ignored ign_path in_dir q fs0 h).
 Proof. exact stale_state_confined_to_blocks. Qed.
 Print Assumptions C08_stale_state_confined_to_blocks_partial.
 
 (* 5. In the model, lint operations never change the file system (the implementation's freedom from side effects
       is observed by snapshots, not proved). *)
 Theorem C08_lint_ops_preserve_fs :
-  forall V perfile rep_blocks rep_consts rep_st hard_excl ignored in_dir q st fs o,
+  forall V perfile rep_blocks rep_consts rep_st hard_excl ignored ign_path in_dir q st fs o,
   lint_op o = true ->
-  snd (fst (step V perfile rep_blocks rep_consts rep_st hard_excl ignored in_dir q (st, fs) o)) = fs.
+  snd (fst (step V perfile rep_blocks rep_consts rep_st hard_excl ignored ign_path in_dir q (st, fs) o)) = fs.
 Proof. exact lint_ops_preserve_fs. Qed.
 Print Assumptions C08_lint_ops_preserve_fs.
 
 (* non-vacuity: a history with edits and deletions whose calls report cross-file findings (symbolic rule instance) *)
-Definition ex_dirs : list (nat * list nat) := [(0, [0; 1; 2]); (1, [2])].
-Definition ex_hist : list op := [ApiLint (TDir 0 [2; 0; 1]); Delete 1; LintFile 0; Edit 2 7; LintFiles [2; 0]].
+Definition ex_dirs : list (nat * list nat) := [(0, [0; 1; 2; 9]); (1, [2])].
+Definition ex_ign : list (nat * list nat) := [(0, []); (5, [1])].    (* version 4 of the ignore file (path 9) ignores path 1 *)
+Definition ex_hist : list op :=
+  [ApiLint (TDir 0 [2; 0; 1]); Delete 2; LintFile 0; Add 9 4; NewLinter; Edit 0 7; LintFiles [1; 0]].
 Example C08_nonvacuous :
-  map out_all (sym_run [] [] ex_dirs ideal [(0, 0); (1, 1); (2, 2)] ex_hist)
+  hist_synced 9 false ex_hist = true /\
+  map out_all (sym_run [] ex_ign 9 ex_dirs ideal [(0, 0); (1, 1); (2, 2)] ex_hist)
   = [ [TPer 2 (Some 2); TPer 0 (Some 0); TPer 1 (Some 1); TRep 0 3 [(2, 2); (0, 0); (1, 1)]; TRep 1 0 [(0, 0); (1, 1); (2, 2)]; TRep 2 0 [(2, 2); (0, 0); (1, 1)]];
-      []; [TPer 0 (Some 0)]; [];
-      [TPer 2 (Some 7); TPer 0 (Some 0); TRep 0 2 [(2, 7); (0, 0)]; TRep 1 0 [(0, 0); (2, 7)]; TRep 2 0 [(2, 7); (0, 0)]] ].
-Proof. vm_compute. reflexivity. Qed.
+      []; [TPer 0 (Some 0)]; []; []; [];
+      [TPer 0 (Some 7); TRep 0 1 [(0, 7)]; TRep 1 0 [(0, 7)]; TRep 2 0 [(0, 7)]] ].
+Proof. vm_compute. split; reflexivity. Qed.
